@@ -78,6 +78,7 @@ def main():
                             os.makedirs(os.path.dirname(d), exist_ok=True)
                             shutil.copy(s, d)
             place()
+            shutil.copytree(src, os.path.join(wt, "SEED"), dirs_exist_ok=True)   # demo commands may refer to SEED/...
             cmd = meta.get("demo_cmd", "")
             cmd = cmd.replace("/tmp/seed/%s" % pid, wt)
             rc0, o0 = sh(cmd, wt, timeout=3000)
@@ -89,7 +90,7 @@ def main():
             demo_res["confirmed"] = (rc0 == 0 and rc1 != 0)
             print("DEMO without rc=%s with rc=%s confirmed=%s" % (rc0, rc1, demo_res["confirmed"]))
             # remove demo files again so that the check sees only the production change
-            sh("git clean -fdq -e SEED", wt)
+            sh("git clean -fdq", wt)
         else:
             sh(["git", "apply", patch], wt)
         rc, o = sh(["go", "build"] + (pkgs or ["./..."]), wt, timeout=3000)
